@@ -16,6 +16,7 @@ type Gen struct {
 	famHits map[string]int
 	noFault bool
 	loose   bool // allow ReturnTensor of tensors that still have views / shallow clones
+	big     bool // now and then a tensor of 4097..2^17 elements
 }
 
 var families = []string{"construct", "access", "slice", "transpose", "copy", "iter", "arith", "cmp", "unary", "reduce",
@@ -33,7 +34,27 @@ func (g *Gen) pickDt() string {
 	return dtNames[g.r.Intn(len(dtNames))]
 }
 
+// bigShapes: sizes beyond every "small tensor" fast path one is likely to meet (4096, 8192, 65536 elements or bytes).
+// The race build is several times slower per statement and stays below 2^15 elements.
+func bigShapes() [][]int {
+	if raceEnabled {
+		return [][]int{{128, 128}, {9000}, {64, 130}, {130, 64}, {20, 20, 21}}
+	}
+	return [][]int{{128, 128}, {9000}, {64, 130}, {70000}, {256, 300}, {300, 256}, {65536}, {16, 64, 80}, {4097}, {2, 32768}}
+}
+
+func (g *Gen) maxOp() int {
+	if g.big {
+		return 1 << 17
+	}
+	return maxOperand
+}
+
 func (g *Gen) pickShape(maxRank int) []int {
+	if g.big && g.r.Intn(3) == 0 {
+		bs := bigShapes()
+		return append([]int(nil), bs[g.r.Intn(len(bs))]...)
+	}
 	rank := g.r.Intn(maxRank + 1)
 	if maxRank >= 4 && g.r.Intn(18) == 0 {
 		// high ranks: 8 is the largest size class of the ints pool, 9 bypasses it
@@ -95,7 +116,7 @@ const maxOperand = 512
 func (g *Gen) pick(p pred) int {
 	var c, sh []int
 	for i, t := range g.w.slots {
-		if t != nil && t.Shape().TotalSize() <= maxOperand && (p == nil || p(t)) {
+		if t != nil && t.Shape().TotalSize() <= g.maxOp() && (p == nil || p(t)) {
 			c = append(c, i)
 			if i < g.w.nshared {
 				sh = append(sh, i)
@@ -165,7 +186,7 @@ func (g *Gen) tainted(i int) bool {
 func (g *Gen) pickWritable(p pred) int {
 	var c []int
 	for i, t := range g.w.slots {
-		if t != nil && t.Shape().TotalSize() <= 4*maxOperand && (p == nil || p(t)) && !g.tainted(i) {
+		if t != nil && t.Shape().TotalSize() <= 4*g.maxOp() && (p == nil || p(t)) && !g.tainted(i) {
 			c = append(c, i)
 		}
 	}
@@ -436,6 +457,8 @@ func (g *Gen) genFamily(fam string) (Op, bool) {
 			return Op{Name: "Ones", S: g.pickDt(), I: g.pickShape(3), Out: g.newSlot()}, true
 		case 1:
 			return Op{Name: "I", S: []string{"float64", "int", "float32"}[r.Intn(3)], I: []int{1 + r.Intn(4), 1 + r.Intn(4), r.Intn(3) - 1}, Out: g.newSlot()}, true
+		case 2:
+			return Op{Name: "NewOpt", N: r.Intn(4), Out: g.newSlot()}, true
 		}
 		return g.opNew(g.pickDt(), g.pickShape(4)), true
 
@@ -771,10 +794,23 @@ func (g *Gen) genFamily(fam string) (Op, bool) {
 			if r.Intn(3) == 0 {
 				// the backward pass: gradient tensor of the selected shape
 				sel := Op{Name: "ByIndices", In: []int{a}, I: idx, N: ax, Out: g.newSlot()}
-				g.queue = append(g.queue, Op{Name: "ByIndicesB", In: []int{a, sel.Out}, I: cloneInts(idx), N: ax, Out: g.newSlot()})
+				back := Op{Name: "ByIndicesB", In: []int{a, sel.Out}, I: cloneInts(idx), N: ax, Out: g.newSlot()}
+				if r.Intn(2) == 0 {
+					// the gradient accumulates into a tensor of the input's shape: a fresh one, or one the caller names
+					if rr := g.pickWritable(sameSizeDt(t)); rr >= 0 && rr != a {
+						back.Mode, back.R = "reuse", rr
+					}
+				}
+				g.queue = append(g.queue, back)
 				return sel, true
 			}
-			return Op{Name: "ByIndices", In: []int{a}, I: idx, N: ax, Out: g.newSlot()}, true
+			sel := Op{Name: "ByIndices", In: []int{a}, I: idx, N: ax, Out: g.newSlot()}
+			if r.Intn(4) == 0 {
+				if rr := g.pickWritable(func(x *tensor.Dense) bool { return x.Dtype() == t.Dtype() && x != t }); rr >= 0 {
+					sel.Mode, sel.R = "reuse", rr
+				}
+			}
+			return sel, true
 		}
 		switch r.Intn(9) {
 		case 0, 1, 2, 3:
@@ -1008,7 +1044,7 @@ func (g *Gen) genLifecycle(force bool) (Op, bool) {
 		for i, t := range w.slots {
 			if t != nil && !g.tainted(i) {
 				cand = append(cand, i)
-				if t.Shape().TotalSize() > maxOperand {
+				if t.Shape().TotalSize() > g.maxOp() {
 					a = i // big results are dropped first
 				}
 			}
